@@ -571,7 +571,7 @@ impl Property for C08 {
 		260
 	}
 	fn cases(&self, tier: Tier) -> u64 {
-		tier.pick(600_000, 10_000_000)
+		tier.pick(2_000_000, 10_000_000)
 	}
 
 	fn enumerations(&self, tier: Tier) -> Vec<crate::engine::Enumeration> {
